@@ -64,5 +64,65 @@ for mode, exp_b, exp_c in itertools.product((0, 1, 2), (None, "exp"), (None, "ex
     if not set(kw) <= exported:
         w = dict(mode=mode, exported=kw, observed=f"export names not inherited by the child: {sorted(exported)}")
         break
+if w is None:
+    # expression-valued options (also nested inside a container) are evaluated before the job uses them
+    @task(namespace=ns)
+    def two():
+        return 2
+
+    @task(namespace=ns)
+    def leafopt(x):
+        return x
+
+    @task(namespace=ns)
+    def top_expr():
+        return [leafopt.options(memory=two(), tag="e1")(1), leafopt.options(resources={"memory": two()}, tag="e2")(2)]
+
+    seen.clear()
+    n += 1
+    s = quiet_scheduler()
+    with silence():
+        s.run(top_expr())
+    from redun.expression import Expression
+    from redun.utils import iter_nested_value
+    for key in ("leafopt:e1", "leafopt:e2"):
+        opts, _ = seen.get(key, ({}, set()))
+        leaves = list(iter_nested_value({k: v for k, v in opts.items()}))
+        if any(isinstance(v, Expression) for v in leaves):
+            w = dict(scenario="expression-valued option", job=key, observed=f"unevaluated expression in the job's options: {opts}")
+            break
+        if key == "leafopt:e1" and opts.get("memory") != 2:
+            w = dict(scenario="expression-valued option", job=key, observed=opts)
+            break
+if w is None:
+    # exported names accumulate DOWN the tree only: an export in one branch must not leak into a sibling branch
+    @task(namespace=ns, memory=16)
+    def private_child(x):
+        return grand(x)
+
+    @task(namespace=ns)
+    def grand(x):
+        return x
+
+    @task(namespace=ns)
+    def exporter(x):
+        return grand.options(tag="under-exporter")(x)
+
+    @task(namespace=ns)
+    def top_siblings():
+        return [exporter.options(tag="exp").export_options(memory=64)(1), private_child.options(tag="priv")(2)]
+
+    seen.clear()
+    n += 1
+    s = quiet_scheduler()
+    with silence():
+        s.run(top_siblings())
+    for key, (opts, exported) in seen.items():
+        if key.startswith("grand:") and not key.endswith("under-exporter") and "memory" in opts:
+            w = dict(scenario="export in one branch, private option of the same name in a sibling branch", job=key, observed=f"child inherited a non-exported option: memory={opts['memory']}, export names {sorted(exported)}")
+            break
+        if key.startswith("private_child") and "memory" in exported:
+            w = dict(scenario="export in one branch leaks sideways", job=key, observed=f"export names {sorted(exported)}")
+            break
 Job.get_options = orig
 finish(w is not None, witness=w, evaluations=n, bound="3 call modes x export of b x export of c")
